@@ -754,7 +754,7 @@ Proof.
       pose proof (i_hsopen _ I) as Ho. cbn in Ho. rewrite Ho. auto.
     + exists (StepHs BErr). cbn. auto.
     + pose proof (i_pre _ I eq_refl) as X. pose proof (i_rd _ I) as Y. cbn in X, Y. congruence.
-    + exists (StepHs BErr). cbn. destruct (first_err c); auto. congruence.
+    + exists (StepHs BErr). cbn. destruct (first_err c); auto; congruence.
     + exists (StepHs BErr). cbn. auto.
     + cbn in Q. rewrite !andb_true_r in Q.
       destruct (find_wait _ EU Q) as (i & E). exists (StepUser i). cbn. rewrite E. cbn.
@@ -782,7 +782,7 @@ Proof.
       * destruct (hs_open c).
         -- specialize (S UWait E). unfold mu; cbn in *; lia.
         -- specialize (S UDone E). unfold mu; cbn in *; lia.
-    + apply negb_true_iff in En. rewrite En. specialize (S UDone E). unfold mu; cbn in *; lia.
+    + apply negb_true_iff in En. cbn. rewrite En. specialize (S UDone E). unfold mu; cbn in *; lia.
     + discriminate.
   - destruct r as [| | |k|p| |]; cbn; try discriminate.
     + intro En. destruct (can_rd c); [unfold mu; cbn; lia|].
@@ -794,8 +794,7 @@ Proof.
     + intros _. unfold mu; cbn; lia.
   - destruct h as [| | | |x|x]; cbn; try discriminate.
     + intros _. destruct (dual c); unfold mu; cbn; [lia|].
-      destruct r as [| | |k|p| |]; cbn; try lia. destruct k; lia.
-      destruct p; cbn; lia.
+      destruct r as [| | |k|p| |]; cbn; try lia; try (destruct k; lia); try (destruct p; cbn; lia).
     + intro En. destruct (hctx c); [unfold mu; cbn; lia|].
       cbn in En. rewrite En. unfold mu; cbn; lia.
     + destruct b.
@@ -866,3 +865,124 @@ Proof.
   assert (r_s (rd g) = 0) by (destruct (rd g); cbn in *; auto; discriminate).
   pose proof (i_sc _ I) as Sc. rewrite Sc. replace (sock_closes (cn g)) with 1 by lia. auto.
 Qed.
+
+(* ================================================================== alerts close like Close() *)
+
+(* an established, open, idle connection: handshake returned, read loop blocked in the socket *)
+Definition open_established (g : cfg) : Prop :=
+  closed (cn g) = false /\ by_user (cn g) = false /\ est (cn g) = true /\ hs_open (cn g) = false /\
+  installed (cn g) = true /\ can_hs (cn g) = false /\ can_rd (cn g) = false /\
+  sock_closed (cn g) = false /\ sock_closes (cn g) = 0 /\ cn_close (cn g) = 0 /\
+  cn_reply (cn g) = 0 /\ first_err (cn g) = None /\ dec_closed (cn g) = false /\
+  hs g = HRet HOk /\ rd g = RRead /\ us g = [].
+
+Definition run_user_close : list op :=
+  SpawnClose :: repeat (StepUser 0) 7 ++ repeat StepReader 3.
+Definition run_recv_fatal : list op := Env ERecvFatal :: repeat StepReader 10.
+Definition run_recv_close_notify : list op := Env ERecvCN :: repeat StepReader 11.
+
+(* everything except who closed, the close_notify counters and the recorded first error *)
+Definition strip (c : conn) : conn :=
+  mkConn (closed c) false (est c) (hs_open c) (installed c) (can_hs c) (can_rd c)
+    (sock_closed c) (sock_closes c) 0 0 None (dec_closed c)
+    (rd_dl c) (wr_dl c) (hctx c) (dual c) (v13 c).
+
+Definition oe_cfg (a b c d e : bool) : cfg :=
+  mkCfg (mkConn false false true false true false false false 0 0 0 None false a b c d e)
+        (HRet HOk) RRead [].
+
+Lemma open_established_shape g :
+  open_established g -> exists a b c d e, g = oe_cfg a b c d e.
+Proof.
+  intros (H1 & H2 & H3 & H4 & H5 & H6 & H7 & H8 & H9 & H10 & H11 & H12 & H13 & H14 & H15 & H16).
+  destruct g as [c h r l]. destruct c as [f1 f2 f3 f4 f5 f6 f7 f8 f9 f10 f11 f12 f13 f14 f15 f16 f17 f18].
+  unfold cn, hs, rd, us, closed, by_user, est, hs_open, installed, can_hs, can_rd, sock_closed,
+    sock_closes, cn_close, cn_reply, first_err, dec_closed in *.
+  subst. exists f14, f15, f16, f17, f18. reflexivity.
+Qed.
+
+Theorem alert_closes_like_user g :
+  open_established g ->
+  let gu := run run_user_close g in
+  let gf := run run_recv_fatal g in
+  let gc := run run_recv_close_notify g in
+  strip (cn gu) = strip (cn gf) /\ strip (cn gf) = strip (cn gc) /\
+  closed (cn gf) = true /\ sock_closes (cn gf) = 1 /\ dec_closed (cn gf) = true /\
+  quiet gu = true /\ quiet gf = true /\ quiet gc = true /\
+  (* the differences: who closed, and which close_notify went out *)
+  by_user (cn gu) = true /\ by_user (cn gf) = false /\ by_user (cn gc) = false /\
+  (cn_close (cn gu), cn_reply (cn gu)) = (1, 0) /\
+  (cn_close (cn gf), cn_reply (cn gf)) = (0, 0) /\
+  (cn_close (cn gc), cn_reply (cn gc)) = (0, 1) /\
+  (* a blocked Read is woken with io.EOF in all three *)
+  In KEof (read_ready (cn gu)) /\ In KEof (read_ready (cn gf)) /\ In KEof (read_ready (cn gc)).
+Proof.
+  intro H. destruct (open_established_shape g H) as (a & b & c & d & e & ->).
+  vm_compute. repeat split; auto.
+Qed.
+
+(* ================================================================== non-vacuity *)
+
+(* four goroutines call Close() on an established connection, steps interleaved round-robin
+   with the read loop: one close_notify, one nextConn.Close(), all four return, nothing left *)
+Definition ops_four_closers : list op :=
+  ops_established ++ [SpawnClose; SpawnClose; SpawnClose; SpawnClose] ++
+  concat (repeat [StepUser 3; StepUser 1; StepReader; StepUser 0; StepUser 2] 8).
+
+Example four_closers :
+  let g := run ops_four_closers (cfg0 false false) in
+  cn_close (cn g) = 1 /\ cn_reply (cn g) = 0 /\ sock_closes (cn g) = 1 /\ quiet g = true /\
+  us g = [UDone; UDone; UDone; UDone].
+Proof. vm_compute. auto. Qed.
+
+(* Close() while HandshakeContext is blocked in its select (not established): no close_notify,
+   the read loop delivers context.Canceled into firstErr, the handshake returns
+   "handshake failed: context canceled", then Close() returns *)
+Definition ops_close_during_handshake : list op :=
+  [Env ECallHandshake; StepHs BEst; SpawnClose] ++
+  repeat (StepUser 0) 7 ++ repeat StepReader 3 ++ [StepHs BErr; StepHs BErr; StepUser 0].
+
+Example close_during_handshake :
+  let g := run ops_close_during_handshake (cfg0 false false) in
+  cn_close (cn g) = 0 /\ sock_closes (cn g) = 1 /\ quiet g = true /\
+  hs g = HRet (HErr RCanceled) /\ hres_class (est (cn g)) (HErr RCanceled) = KCanceled.
+Proof. vm_compute. auto. Qed.
+
+(* the race of close() with handshake(): the closeLock region of Close() runs before the cancel
+   functions are installed, so its cancel calls are the no-op defaults; the read loop is
+   stopped by nextConn.Close() instead *)
+Definition ops_close_before_install : list op :=
+  [Env ECallHandshake; SpawnClose; StepUser 0; StepHs BEst] ++
+  repeat (StepUser 0) 6 ++ repeat StepReader 3 ++ [StepHs BErr; StepHs BErr; StepUser 0].
+
+Example close_before_install :
+  let g := run ops_close_before_install (cfg0 false false) in
+  can_rd (cn g) = true (* set by handshake() on firstErr, not by close() *) /\
+  hs g = HRet (HErr RSockClosed) /\ quiet g = true /\ sock_closes (cn g) = 1.
+Proof. vm_compute. auto. Qed.
+
+(* ================================================================== reachable-state forms *)
+
+Theorem no_deadlock_reachable d v ops :
+  let g := run ops (cfg0 d v) in
+  pending g = true -> quiet g = false ->
+  exists o, internal o = true /\ op_enabled o g = true.
+Proof. intros g. apply no_deadlock, inv_reachable. Qed.
+
+Theorem close_idempotent_reachable d v ops i :
+  let g := run ops (cfg0 d v) in
+  closed (cn g) = true -> nth_error (us g) i = Some (UC CLock) ->
+  let g' := run [StepUser i; StepUser i; StepUser i; StepUser i] g in
+  obs (cn g') = obs (cn g) /\ hs g' = hs g /\ rd g' = rd g /\
+  nth_error (us g') i = Some (if hs_open (cn g) then UWait else UDone) /\
+  (forall j, j <> i -> nth_error (us g') j = nth_error (us g) j).
+Proof. intros g. apply close_idempotent. Qed.
+
+Theorem quiet_closed_settled_reachable d v ops :
+  let g := run ops (cfg0 d v) in
+  closed (cn g) = true -> quiet g = true ->
+  sock_closes (cn g) = 1 /\ sock_closed (cn g) = true /\ forallb u_done (us g) = true.
+Proof. intros g. apply quiet_closed_settled, inv_reachable. Qed.
+
+Example open_established_reachable : open_established (run ops_established (cfg0 false false)).
+Proof. vm_compute. repeat split; reflexivity. Qed.
